@@ -21,6 +21,17 @@ def _src_text(c):
     return base64.b64decode(c['src_b64']).decode('utf-8', 'replace')
 
 
+def hard_nested_literal(v, field):
+    """the literals the known finding is about: ones that cannot be written without a backslash or with the quotes left over inside a replacement
+    field (control characters, backslash, NUL, non-ASCII bytes, quote characters)"""
+    chars = v if isinstance(v, str) else v.decode('latin-1')
+    if any(ord(c) < 0x20 or c in '\\\x7f' or (isinstance(v, bytes) and ord(c) >= 0x80) for c in chars):
+        return True
+    if "'" in chars or '"' in chars:
+        return True
+    return False
+
+
 def classify(c, r, version=''):
     """Mechanism keys (known_findings.txt). Predicates look at the input's tree and the failure record."""
     exc = r.get('exc') or {}
@@ -38,7 +49,7 @@ def classify(c, r, version=''):
                 for m in ast.walk(n):
                     if isinstance(m, ast.FormattedValue):
                         for k in ast.walk(m.value):
-                            if isinstance(k, ast.Constant) and isinstance(k.value, (bytes, str)):
+                            if isinstance(k, ast.Constant) and isinstance(k.value, (bytes, str)) and hard_nested_literal(k.value, m.value):
                                 return 'C08.fstring.nested_literal_unrepresentable'
     if kind == 'raised' and exc.get('type') == 'ValueError' and 'integer string conversion' in detail:
         return 'C08.int.decimal_limit'
